@@ -139,6 +139,36 @@ def _liquidation_rows(draw: Any, rows: List[Dict[str, Any]]) -> List[Dict[str, A
 
 
 @st.composite
+def _tied_fills(draw: Any, cfg: gen.GenCfg) -> Dict[str, Any]:
+    """Two fills of one order (identical timestamp, two accounts) as the last acquisitions, laid out so that they sit on sheet
+    rows 9|10 or 99|100, followed by disposals that need both: every lot acquired at or before a disposal must be available to it,
+    whatever the row numbers look like as text."""
+    accounts = [(gen.EXCHANGE_NAMES[0], gen.HOLDER_NAMES[0]), (gen.EXCHANGE_NAMES[1], gen.HOLDER_NAMES[0])]
+    us = gen._year_start_us(draw(st.integers(2016, 2021))) + draw(st.integers(0, 300)) * gen.DAY_US
+    k = draw(st.integers(0, 5))
+    rows: List[Dict[str, Any]] = []
+    held = {accounts[0]: 0, accounts[1]: 0}
+    for i in range(k):
+        acc = accounts[i % 2]
+        units = draw(st.integers(1, 3000)) * (gen.UNIT // 1000)
+        rows.append({"table": "in", "row": 0, "ts": model.fmt_ts(us, 0), "ex": acc[0], "ho": acc[1], "type": "buy", "price": gen.units_to_str(draw(st.integers(1, 900)) * gen.UNIT), "crypto_in": gen.units_to_str(units), "uid": f"b{i}"})
+        held[acc] += units
+        us += draw(st.integers(1, 40)) * gen.DAY_US
+    for j, acc in enumerate(accounts):  # the tied pair
+        units = draw(st.integers(1, 3000)) * (gen.UNIT // 1000)
+        rows.append({"table": "in", "row": 0, "ts": model.fmt_ts(us, 0), "ex": acc[0], "ho": acc[1], "type": "buy", "price": gen.units_to_str(draw(st.integers(1, 900)) * gen.UNIT), "crypto_in": gen.units_to_str(units), "uid": f"fill{j}"})
+        held[acc] += units
+    for j, acc in enumerate(accounts):  # everything is sold again
+        us += draw(st.integers(1, 200)) * gen.DAY_US
+        rows.append({"table": "out", "row": 0, "ts": model.fmt_ts(us, 0), "ex": acc[0], "ho": acc[1], "type": draw(st.sampled_from(["sell", "gift"])), "price": gen.units_to_str(draw(st.integers(1, 900)) * gen.UNIT), "out": gen.units_to_str(held[acc]), "fee": "0", "uid": f"s{j}"})
+    for i, row in enumerate(rows):
+        row["row"] = cfg.first_row + i
+    # first data row of the IN table = first_blank + 3; the pair occupies positions k and k + 1 of it
+    target = draw(st.sampled_from([9, 9, 99]))
+    return {"asset": cfg.asset, "exchanges": [a[0] for a in accounts], "holders": [accounts[0][1]], "rows": rows, "layout_hint": {"in_first": True, "first_blank": target - 3 - k}}
+
+
+@st.composite
 def _dust_on_big_lot(draw: Any, cfg: gen.GenCfg) -> Dict[str, Any]:
     """A short single-account history in which a large holding gives up a sliver only: 1-3 small lots, then a lot of hundreds of
     units, then one disposal of everything the small lots hold plus 1e-11 .. 1e-9.  Under FIFO (and under HIFO / LOFO when the
@@ -204,7 +234,7 @@ def file_case(
         elif flavour == "disposal_years":
             overrides.update(ops=("out", "out", "out", "in"), tie_prob=0.05)
         cfg = gen.GenCfg(**{**hist.__dict__, **overrides})
-        generated = draw(_dust_on_big_lot(cfg)) if flavour == "dust_on_big_lot" else draw(gen.history(cfg))
+        generated = draw(_dust_on_big_lot(cfg)) if flavour == "dust_on_big_lot" else draw(_tied_fills(cfg)) if flavour == "tied_fills" else draw(gen.history(cfg))
         if flavour == "fully_sold":
             generated["rows"].extend(_liquidation_rows(draw, generated["rows"]))
         raw = to_raw(generated["rows"])
@@ -220,14 +250,15 @@ def file_case(
                 row["notes"] = note
         all_txs.extend(model.make_txs([dict(r, row=i) for i, r in enumerate(post_rows([dict(r, row=i + 3) for i, r in enumerate(raw)])[0])]))
         tables: List[Tuple[str, List[Dict[str, Any]]]] = []
-        order = draw(st.permutations(["in", "out", "intra"]))
+        hint = generated.get("layout_hint") or {}
+        order = ["in", "out", "intra"] if hint.get("in_first") else draw(st.permutations(["in", "out", "intra"]))
         for table in order:
             rows = [r for r in raw if r["table"] == table]
-            if shuffle_rows and len(rows) > 1 and draw(st.booleans()):
+            if shuffle_rows and len(rows) > 1 and not hint and draw(st.booleans()):
                 rows = list(draw(st.permutations(rows)))
             if rows or table == "in" or draw(st.booleans()):
                 tables.append((table, rows))
-        assets[name] = {"tables": [[t, rows] for t, rows in tables], "blank": draw(st.integers(0, 2)), "first_blank": draw(st.integers(0, 1)), "trailing_blank": draw(st.sampled_from([0, 0, 1, 3]))}
+        assets[name] = {"tables": [[t, rows] for t, rows in tables], "blank": draw(st.integers(0, 2)), "first_blank": hint["first_blank"] if "first_blank" in hint else draw(st.sampled_from([0, 0, 1, 1, 4, 5, 6, 7, 94, 95, 96])), "trailing_blank": draw(st.sampled_from([0, 0, 1, 3]))}
     case: Dict[str, Any] = {
         "country": country,
         "exchanges": exchanges,
@@ -278,4 +309,10 @@ def file_case(
             case["from"], case["to"] = min(first, second), max(first, second)
         elif wkind == 4 and allow_from and country != "jp":
             case["from"] = case["to"] = first
+        if case.get("schedule") and len(case["schedule"]) > 1 and case.get("to") and draw(st.booleans()):
+            # a to-date inside a year in which the schedule switches method (the year's own method must still be the one used)
+            year = draw(st.sampled_from(sorted(case["schedule"])[1:]))
+            case["to"] = f"{year}-{draw(st.sampled_from(['03-15', '06-30', '12-31']))}"
+            if case.get("from") and case["from"] > case["to"]:
+                case["from"] = None
     return case
